@@ -133,6 +133,65 @@ class Loop(Harness):
         yield 'no-other-row-touched', obs['others_changed'] == []
 
 
+class FlakyLoop(Loop):
+    """as Loop, but ONE probe of the sequence (a symbolic position) gets no answer although the server's policy has one (a stall, a throttled connection): the
+    recorded size is still the smallest modulus the server actually handed out in the answered probes - or no size at all; never a larger one."""
+    ob = 'O6'
+
+    def __init__(self, style, alg, openssh):
+        super().__init__(style, alg, openssh)
+        self.name = 'flakyloop-' + self.name[len('loop-'):]
+
+    def inputs(self):
+        d = Loop.inputs(self)
+        d['stall'] = zx.fresh_int('stall', 0, 9)
+        return d
+
+    def run(self, M, inp):
+        db, _ = OL.fresh_tables(M)
+        kex = make_kex(M, {'kex': [self.alg, 'curve25519-sha256']})
+        banner = M.banner.Banner((2, 0), 'OpenSSH_8.0' if self.openssh else 'dropbear_2020.81', None, True)
+        out = M.outputbuffer.OutputBuffer()
+        calls, answers = [], []
+
+        def fake_send_init(out_, s_, kex_group, kex_, gex_alg, mn, pref, mx):
+            idx = len(calls)
+            calls.append((gex_alg, mn, pref, mx))
+            a = s_ite(inp['stall'] == idx, -1, server_reply(inp['have'], self.style, mn, pref, mx))
+            answers.append(a)
+            return a, False
+
+        class S:
+            def is_connected(self): return False
+            def close(self): pass
+        orig = M.gextest.GEXTest._send_init
+        M.gextest.GEXTest._send_init = staticmethod(fake_send_init)
+        try:
+            r = guarded(M.gextest.GEXTest.run, out, S(), banner, kex)
+        finally:
+            M.gextest.GEXTest._send_init = orig
+        if isinstance(r, Exc):
+            return {'exc': r}
+        return {'size': kex.dh_modulus_sizes().get(self.alg), 'calls': calls, 'answers': answers}
+
+    def check(self, inp, obs):
+        if 'exc' in obs:
+            yield 'no-exception', False
+            return
+        first = [a for c, a in zip(obs['calls'], obs['answers']) if (c[1], c[2], c[3]) != SECOND]
+        second = [a for c, a in zip(obs['calls'], obs['answers']) if (c[1], c[2], c[3]) == SECOND]
+        best = -1
+        for r in first:
+            best = s_ite(s_and(r > 0, s_or(best == -1, r < best)), r, best)
+        final = best
+        if second:
+            final = second[0]
+        size = obs['size']
+        if size is not None:
+            yield 'size-is-the-smallest-modulus-actually-handed-out', s_and(final > 0, size == final)
+        yield 'at-most-9-probes', len(obs['calls']) <= 9
+
+
 class LoopReal(Loop):
     """as Loop, but with the real GEXTest._send_init and GEXTest.reconnect on a scripted connection that always succeeds; only the DH group object is a
     stand-in that hands out the modelled server's modulus.  What _send_init does with a reply (e.g. discarding one) is therefore part of the claim."""
@@ -358,6 +417,8 @@ def tasks(tier):
             for openssh in (False, True):
                 T.append(Loop(style, alg, openssh))
                 T.append(LoopReal(style, alg, openssh))
+                if alg == G256 or not q:
+                    T.append(FlakyLoop(style, alg, openssh))
     for bits in ((512, 1023, 1024, 1025, 2048, 3072) if q else (512, 768, 1023, 1024, 1025, 1536, 2047, 2048, 2049, 3071, 3072, 3073, 4096, 6144)):
         T.append(Measure(bits, True))
         # without the leading zero byte: also for sizes that are a multiple of 8, where the first byte then has its top bit set (an unsigned modulus as some
@@ -382,6 +443,8 @@ def harness_by_name(name, params):
     p = params
     if k == 'loopreal':
         return LoopReal(p['style'], p['alg'], p['openssh'])
+    if k == 'flakyloop':
+        return FlakyLoop(p['style'], p['alg'], p['openssh'])
     if k == 'loop':
         return Loop(p['style'], p['alg'], p['openssh'])
     if k == 'sendinit':
